@@ -111,16 +111,27 @@ func c11Positions() []c11pos {
 		{name: "argument-service", extra: "@", prefix: "@", valid: argValid, slot: func(c *cfg.Config, i int, s string) string {
 			sv := newSvc(c, i)
 			sv.Value, sv.Constructor, sv.Args = nil, cfg.P("a"), []cfg.Val{cfg.Str(s)}
+			textTwin(c, i, s)
 			return svcSlot(i)
 		}},
 		{name: "argument-tagged", extra: "!", prefix: "!tagged ", valid: argValid, slot: func(c *cfg.Config, i int, s string) string {
 			newSvc(c, i).Fields = []cfg.KV{{K: "F", V: cfg.Str(s)}}
+			textTwin(c, i, s)
 			return svcSlot(i)
 		}},
 		{name: "argument-value", extra: "1", prefix: "!value ", valid: argValid, slot: func(c *cfg.Config, i int, s string) string {
 			newSvc(c, i).Calls = []cfg.Call{{Method: "M", Args: []cfg.Val{cfg.Str(s)}}}
+			textTwin(c, i, s)
 			return svcSlot(i)
 		}},
+	}
+}
+
+// textTwin declares, for every second argument candidate, a parameter whose value is the same text. As a parameter the text is a plain
+// string (always valid); what the argument of the same spelling means is judged on its own.
+func textTwin(c *cfg.Config, i int, s string) {
+	if i%2 == 0 && !strings.Contains(s, "%") {
+		c.Params = append(c.Params, cfg.KV{K: fmt.Sprintf("tw%d", i), V: cfg.Str(s)})
 	}
 }
 
